@@ -14,6 +14,8 @@ def stages(tier):
          "timeout": 400, "timeout_thorough": 2400, "search_budget": 20},
         {"name": "phc", "cmd": "unit", "args": ["-prop", "C16phc"], "check": "Check.Phc.check_phc",
          "timeout": 300, "timeout_thorough": 1800},
+        {"name": "sessrace", "cmd": "sessrace", "args": [], "check": "logout interleaved with lookup/extension of the same session (direct)",
+         "timeout": 120, "timeout_thorough": 300},
     ]
 
 
